@@ -1111,6 +1111,24 @@ func (g *G) varExpr(depth int, call bool) *Node {
 		m, _ := g.memberNameFor(true)
 		as, ps := g.args(depth)
 		base = &Node{Kind: "ExprStaticCall", Kids: []Kid{one("Class", cls), one("Call", m), list("Args", as)}, Parts: parts(cls, t("::"), m, ps), Prec: 100}
+	case k == 5 && depth < g.O.MaxDepth && call && g.dollarFirst == 0:
+		// (new X(args)) as the base of a chain
+		nw := g.newExpr(depth + 1)
+		if nw.HasFlag(FKnownDiff) || nw.HasFlag(FPhp7Only) {
+			base = g.simpleVar()
+			break
+		}
+		base = g.brackets(nw)
+		// at least one link
+		m := g.identifier(g.ident())
+		base = &Node{Kind: "ExprPropertyFetch", Kids: []Kid{one("Var", base), one("Prop", m)}, Parts: parts(base, t("->"), m), Prec: 100}
+		if g.R.Chance(1, 3) {
+			// (new X)->p[i](args): a call on an element of a property of the new object
+			d := g.exprTop(depth + 1)
+			fn := &Node{Kind: "ExprArrayDimFetch", Kids: []Kid{one("Var", base), one("Dim", d)}, Parts: parts(base, t("["), d, t("]")), Prec: 100}
+			as, ps := g.args(depth)
+			base = &Node{Kind: "ExprFunctionCall", Kids: []Kid{one("Function", fn), list("Args", as)}, Parts: parts(fn, ps), Prec: 100}
+		}
 	default:
 		base = g.simpleVar()
 	}
@@ -1325,7 +1343,8 @@ func (g *G) param(depth int, last bool) *Node {
 	v := g.simpleVarPlain()
 	p.Kids = append(p.Kids, one("Var", v))
 	p.Parts = append(p.Parts, v)
-	if !variadic && g.R.Chance(1, 4) {
+	if (!variadic && g.R.Chance(1, 4)) || (variadic && g.R.Chance(1, 5)) {
+		// (a default on a variadic parameter is grammatical; PHP rejects it only at compile time)
 		d := g.constExpr(depth + 2)
 		p.Kids = append(p.Kids, one("DefaultValue", d))
 		p.Parts = append(p.Parts, t("="), d)
